@@ -562,6 +562,8 @@ class FnAnalysis:
             labels = a | b
             if rv[1] in ("Div", "Rem"):
                 self.sink("div", line, labels, "division")
+            if rv[1] in ("Eq", "Ne", "Lt", "Le", "Gt", "Ge", "Cmp"):
+                self.sink("cmp", line, labels, "comparison producing a bool")
             if rv[1] == "Offset":
                 _, p_in = self.operand(rv[2], st)
                 self.sink("index", line, b, "pointer offset")
